@@ -152,6 +152,29 @@ class Box:
         self.count = self.count + len(ps)
 
 
+class Base:
+    def prepare(self, ps):
+        self.log.append((6, [], [p.id for p in ps]))
+
+
+class Box2(Base):
+    def flow(self, ps):
+        t0 = time.time()
+        super().prepare(ps)
+        conn = self.open()
+        cur = conn.cursor()
+        for p in ps:
+            cur.put(self.tag, [p.id, dumps(p.vec)])
+        conn.close()
+        t = time.time() - t0
+        self.logger.info("took {} s for {}".format(t, self.tag))
+        if self.mode == 'w' or self.mode == 'rw':
+            self.count = self.count + 1
+
+    def submit_all(self, items):
+        Parallel(n_jobs=self.n, verbose=1)(delayed(self.job)(x) for x in items if x.state == St.A if x.flag)
+
+
 def branchy(x, world, flag):
     out = 0.0
     if flag:
@@ -193,6 +216,9 @@ REJECT = {
     "try_in_loop_in_try": "def f(x, world):\n    try:\n        for k in range(2):\n            try:\n                x = world.f(x)\n            except KeyError:\n                x = 0.0\n    except ValueError:\n        x = 1.0\n    return x\n",
     "all_with_condition": "def f(x, world, xs):\n    return all(v > x for v in xs if v > 0.0)\n",
     "keyword_to_effect": "def f(x, world):\n    return world.h(x=x)\n",
+    "untracked_mixed_expr": "def f(x, world):\n    t_s = time.time() - x\n    return x\n",
+    "silent_with_effect_arg": "SILENT\ndef f(x, world):\n    world.log(world.h(x))\n    return x\n",
+    "super_rebound": "def f(x, world):\n    super = world\n    return world.h(x)\n",
 }
 del REJECT["bare_except_first"]          # (a bare except as the only handler is legal; kept out of the list)
 
@@ -231,8 +257,20 @@ TYPES = {
               "abstract_loops": {"for p in ps": "sum"},
               "effects": [{"call": "self.pre", "args": ["list ob"], "event": True}]},
     "branchy": {"returns": "T", "params": {"x": "T", "world": "obj", "flag": "bool"}, "effects": WORLD_EFFECTS},
+    "flow": {"returns": "none", "raises": True, "records": OBJ_REC, "opaque": ["CONN", "CUR", "ROW"],
+             "params": {"ps": "list ob"}, "attrs": [["self.tag", "T"], ["self.count", "nat"]], "writes": [["self.count", "nat"]],
+             "flags": {"self.mode == 'w' or self.mode == 'rw'": "writable"},
+             "terms": {"[p.id, dumps(p.vec)]": {"name": "row", "args": ["p"], "type": "ROW"}},
+             "untracked": {"targets": ["t0", "t"], "sources": ["time.time"]}, "silent": ["self.logger.info"],
+             "effects": [{"call": "super().prepare", "args": ["list ob"], "event": True},
+                         {"call": "self.open", "args": [], "returns": "CONN", "history": True, "event": True},
+                         {"call": "<CONN>.cursor", "receiver": "CONN", "args": [], "returns": "CUR"},
+                         {"call": "<CUR>.put", "receiver": "CUR", "args": ["T", "ROW"], "raises": True, "history": True, "event": True},
+                         {"call": "<CONN>.close", "receiver": "CONN", "args": [], "event": True}]},
+    "submit_all": {"returns": "none", "records": OBJ_REC, "params": {"items": "list ob"}, "constants": CONSTS,
+                   "submit": {"pool": "Parallel", "wrap": "delayed", "call": "self.job", "config": "n_jobs=self.n, verbose=1"}},
 }
-CLS = {"whole": "Box"}
+CLS = {"whole": "Box", "flow": "Box2", "submit_all": "Box2"}
 
 GRID = [0.0, -0.0, 1.0, 2.0, 0.5, 1.5, -1.0, 3.0, 0.25, 0.1, 2.5, -2.5]
 EXC_CODE = {"TimeoutError": 1, "RuntimeError": 2, "KeyError": 3, "ValueError": 4, "IndexError": 5, "OverflowError": 6}
@@ -519,7 +557,70 @@ def case_whole(ns, rng):
     return iface, [terms, "%d%%nat" % c0], exp, "(peqb (peqb (leqb obj_eqb) Nat.eqb) (leqb ev_eqb))", {}
 
 
-CASES = {"retry": case_retry, "guarded": case_guarded, "nested": case_nested, "leaves": case_leaves, "quant": case_quant,
+def case_flow(ns, rng):
+    ps = []
+    for i in range(rng.randrange(4)):
+        o = ns["Obj"]([rng.choice(GRID) for _ in range(rng.randrange(3))])
+        o.id, o.total = i, 0.0
+        ps.append(o)
+    terms = "[%s]" % "; ".join(obj_term(o) for o in ps)
+    log, nput = [], [0]
+    sp = [("e", rng.choice([2, 4])) if rng.random() < 0.25 else ("v", 0.0) for _ in range(4)]
+    cid = rng.randrange(5)
+    tag, mode, c0 = rng.choice(GRID), rng.choice(["w", "rw", "r"]), rng.randrange(3)
+
+    class Cur:
+        def put(self, tg, row):
+            log.append((7, [tg] + list(ns["loads"](row[1])), [cid + 100, row[0]]))
+            r = sp[nput[0]] if nput[0] < len(sp) else ("v", 0.0)
+            nput[0] += 1
+            if r[0] == "e":
+                raise EXC_CLS[r[1]]()
+    conn = SimpleNamespace(cursor=lambda: Cur(), close=lambda: log.append((8, [], [cid])))
+    me = ns["Box2"]()
+    me.log, me.tag, me.mode, me.count = log, tag, mode, c0
+    me.open = lambda: (log.append((9, [], [])), conn)[1]
+    me.logger = SimpleNamespace(info=lambda *a: None)
+    try:
+        me.flow(ps)
+        out = "(PyVal tt)"
+    except tuple(EXC_CLS.values()) as e:
+        out = "(PyExc %d%%nat)" % EXC_CODE[type(e).__name__]
+    iface = {
+        "t_row": "(fun (log : list EV) (p : OBJ) => (o_id p, o_vec p))",
+        "ev_super_prepare": "(fun qs : list OBJ => (6%nat, @nil float, map o_id qs))",
+        "ev_self_open": "(9%nat, @nil float, @nil nat)",
+        "ev_CUR_put": "(fun (c : nat) (tg : float) (r : nat * list float) => (7%nat, tg :: snd r, [c; fst r]))",
+        "ev_CONN_close": "(fun c : nat => (8%nat, @nil float, [c]))",
+        "o_self_open": "(fun log : list EV => %d%%nat)" % cid,
+        "o_CONN_cursor": "(fun c : nat => (c + 100)%nat)",
+        "o_CUR_put": "(fun (log : list EV) (c : nat) (tg : float) (r : nat * list float) => script %s (PyVal tt) (pred (count 7 log)))"
+                     % ("[" + "; ".join("PyVal tt" if k == "v" else "(PyExc %d%%nat)" % x for k, x in sp) + "]"),
+    }
+    exp = "(%s, %d%%nat, [%s])" % (out, me.count, "; ".join(ev_term(e) for e in log))
+    return iface, [terms, fl(tag), "%d%%nat" % c0, bl(mode in ("w", "rw"))], exp, "(peqb (peqb (outeqb ueqb) Nat.eqb) (leqb ev_eqb))", \
+        {"CONN": "nat", "CUR": "nat", "ROW": "(nat * list float)%type"}
+
+
+def case_submit(ns, rng):
+    items = []
+    for i in range(rng.randrange(5)):
+        o = ns["Obj"]([])
+        o.id, o.state, o.flag, o.total = i, rng.choice([0, 0, 1, 2]), rng.random() < 0.7, 0.0
+        items.append(o)
+    terms = "[%s]" % "; ".join(obj_term(o) for o in items)
+    got = []
+    ns["Parallel"] = lambda **kw: (lambda gen: got.append([a[0].id for (f, a) in gen]))
+    ns["delayed"] = lambda f: (lambda *a: (f, a))
+    me = ns["Box2"]()
+    me.n, me.job = 2, (lambda x: None)
+    me.submit_all(items)
+    iface = {"ev_submit": "(fun qs : list OBJ => (5%nat, @nil float, map o_id qs))"}
+    exp = "[%s]" % "; ".join(ev_term((5, [], g)) for g in got)
+    return iface, [terms], exp, "(leqb ev_eqb)", {}
+
+
+CASES = {"flow": case_flow, "submit_all": case_submit, "retry": case_retry, "guarded": case_guarded, "nested": case_nested, "leaves": case_leaves, "quant": case_quant,
          "scan": case_scan, "whole": case_whole, "branchy": case_branchy}
 BASE_IFACE = {"ltb": "PrimFloat.ltb", "leb": "PrimFloat.leb", "eqb": "PrimFloat.eqb", "add": "PrimFloat.add",
               "sub": "PrimFloat.sub", "mul": "PrimFloat.mul", "div": "PrimFloat.div", "neg": "PrimFloat.opp",
@@ -542,13 +643,15 @@ def main():
     spec = {"source": "pkg/m.py", "module": "EffSelf", "frontend": "eff", "functions": functions, "types": types}
     text, _ = eff.translate_spec(work, spec)
     open(os.path.join(work, "EffSelf.v"), "w").write(text)
-    ns = {"sys": sys, "print": lambda *a, **k: None}
+    import json as _json
+    ns = {"sys": sys, "print": lambda *a, **k: None, "dumps": _json.dumps, "loads": _json.loads}
     if os.environ.get("EFF_SELFTEST_FAULT"):
         # fault injection: CPython runs a slightly different source than the one translated; the comparison must notice
         for old, new in [("            continue\n", "            p.flag = not p.flag\n            continue\n"), ("total * 2.0", "total * 2.5"),
                          ("a = 0.5", "a = 0.75"), ("if y > 1.0:", "if y >= 1.0:"), ("lo < v for v", "lo <= v for v"),
                          ("if p.state == St.A:", "if p.state != St.C:"), ("self.items = []", "self.items = ps[:1]"),
-                         ("out = out - 1.0", "out = out - 1.5")]:
+                         ("out = out - 1.0", "out = out - 1.5"), ("if x.state == St.A if x.flag", "if x.state == St.A"),
+                         ("        conn.close()\n", "        conn.close()\n        conn.close()\n")]:
             assert old in src
             src = src.replace(old, new)
     exec(compile(src, "m.py", "exec"), ns)
@@ -594,7 +697,8 @@ def main():
         d = tempfile.mkdtemp(prefix="py2coq_eff_rej_")
         os.makedirs(os.path.join(d, "pkg"))
         raises = not s.startswith("NORAISE\n")
-        s = s.replace("NORAISE\n", "")
+        silent = s.startswith("SILENT\n")
+        s = s.replace("NORAISE\n", "").replace("SILENT\n", "")
         open(os.path.join(d, "pkg", "m.py"), "w").write("import time\n" + s)
         import ast as _ast
         fn = [n for n in _ast.parse(s).body if isinstance(n, _ast.FunctionDef)][0]
@@ -602,7 +706,7 @@ def main():
         ty = {"returns": "T", "raises": raises, "records": {"obj2": {"flag": "bool", "total": "T"}}, "opaque": ["B"],
               "params": {a.arg: ptypes[a.arg] for a in fn.args.args},
               "attrs": [["world.box", "list T"], ["world.failed", "list obj2"]], "writes": [["world.failed", "list obj2"], ["p.total", "T"]],
-              "untracked": {"targets": ["t_s"], "sources": ["time.time"]},
+              "untracked": {"targets": ["t_s"], "sources": ["time.time"]}, "silent": ["world.log"] if silent else [],
               "effects": WORLD_EFFECTS + [{"call": "Obj", "args": ["list T"], "returns": "obj2", "new": True},
                                           {"call": "p.digest", "args": ["T"], "self_fields": ["flag"], "sets": ["p.total"]}]}
         if "p" not in ty["params"]:
